@@ -85,9 +85,16 @@ Lemma bol_falls_through :
   /\ best_match bol_rules [127] = Some (A_goto_notbol, 1%nat).
 Proof. vm_compute. split; reflexivity. Qed.
 
-(* a rule that may run across a 0x7f: only "<"-rules, the t_uniq rule (first character 0x7f), single characters *)
+(* a rule that may run across a 0x7f: only the html tag / comment rules (every match is "<" x ">" with no ">" in x),
+   the t_uniq rule (first character 0x7f) and single characters *)
+Fixpoint ends_sent (c : N) (r : re) : bool :=
+  match r with
+  | Cat a b => avoids c a && ends_sent c b
+  | _ => re_eqb r (chr c)
+  end.
+
 Definition cross_ok (ra : re * act) : bool :=
-  let r := fst ra in avoids 127 r || is_single r || first_only 60 r || first_only 127 r.
+  let r := fst ra in avoids 127 r || is_single r || (first_only 60 r && ends_sent 62 r) || first_only 127 r.
 
 Lemma rules_cross_ok : forallb cross_ok main_rules = true /\ forallb cross_ok bol_rules = true.
 Proof. vm_compute. split; reflexivity. Qed.
@@ -156,12 +163,6 @@ Proof.
 Qed.
 
 (* ------------------------------------------------------------------ every match of r_uniq is 0x7f mid 0x7f, mid free of 0x7f *)
-Fixpoint ends_sent (c : N) (r : re) : bool :=
-  match r with
-  | Cat a b => avoids c a && ends_sent c b
-  | _ => re_eqb r (chr c)
-  end.
-
 Lemma ends_sent_spec c : forall r w, ends_sent c r = true -> matches r w -> exists mid, w = mid ++ [c] /\ ~ In c mid.
 Proof.
   induction r; intros w H M; cbn [ends_sent] in H; try (apply re_eqb_eq in H; try discriminate H).
@@ -291,7 +292,12 @@ Proof.
 Qed.
 
 (* ------------------------------------------------------------------ no rule runs across the first character of a marker *)
-Definition clear_char (c : N) : Prop := c <> 0 /\ c <> 60 /\ c <> 127.
+(* a stretch of text in front of a marker: no NUL, no 0x7f, and every "<" is followed by a ">" inside the stretch *)
+Fixpoint clear (u : list N) : Prop :=
+  match u with
+  | [] => True
+  | c :: u' => c <> 0 /\ c <> 127 /\ (c = 60 -> In 62 u') /\ clear u'
+  end.
 
 Lemma firstn_no_c_le c : forall (u v : list N) n, ~ In c (firstn n (u ++ c :: v)) -> (n <= length u)%nat.
 Proof.
@@ -301,23 +307,47 @@ Proof.
     intro I. apply H. right. exact I.
 Qed.
 
+Lemma in_split_first (x : N) : forall l, In x l -> exists a b, l = a ++ x :: b /\ ~ In x a.
+Proof.
+  induction l as [|y l IH]; intros H; [contradiction|].
+  destruct (N.eq_dec y x) as [-> | Hne].
+  - exists [], l. split; [reflexivity | intros []].
+  - destruct H as [H | H]; [contradiction|]. destruct (IH H) as (a & b & -> & Ha).
+    exists (y :: a), b. split; [reflexivity|]. intros [I | I]; [contradiction | exact (Ha I)].
+Qed.
+
 Lemma no_crossing rules u w a n :
-  forallb cross_ok rules = true -> u <> [] -> Forall clear_char u ->
+  forallb cross_ok rules = true -> u <> [] -> clear u ->
   best_match rules (u ++ 127 :: w) = Some (a, n) -> (n <= length u)%nat.
 Proof.
   intros Hall Hu Hc Hb. destruct (best_match_in _ _ _ _ Hb) as (r & Hin & Hl).
   pose proof (forallb_in' _ _ _ Hall Hin) as H. unfold cross_ok in H. cbn [fst] in H.
-  destruct u as [|c u0]; [contradiction|]. inversion Hc as [|c' u' (H0 & H60 & H127) Hc']; subst.
-  assert (first_case : forall d, first_only d r = true -> c <> d -> False).
-  { intros d Hf Hne. destruct (longest_match_sound _ _ _ Hl) as (_ & Hm & _).
+  destruct u as [|c u0]; [contradiction|]. destruct Hc as (H0 & H127 & H60 & Hc').
+  assert (first_case : forall d, first_only d r = true -> (0 < n)%nat -> c = d).
+  { intros d Hf Hpos. destruct (longest_match_sound _ _ _ Hl) as (_ & Hm & _).
     destruct (first_only_spec d r _ Hf Hm) as (w' & E).
-    destruct n as [|n].
-    - cbn [firstn] in E. discriminate.
-    - cbn [app firstn] in E. inversion E. contradiction. }
+    destruct n as [|n]; [lia|]. cbn [app firstn] in E. inversion E. reflexivity. }
   apply orb_true_iff in H. destruct H as [H | H]; [apply orb_true_iff in H; destruct H as [H | H];
                                                    [apply orb_true_iff in H; destruct H as [H | H]|]|].
   - apply (firstn_no_c_le 127 _ w). apply (longest_match_avoids 127 r _ _ H Hl).
   - apply is_single_inv in H. destruct H as (k & ->). apply longest_match_chr in Hl. destruct Hl as [-> _]. cbn [length]. lia.
-  - exfalso. exact (first_case 60 H H60).
-  - exfalso. exact (first_case 127 H H127).
+  - apply andb_true_iff in H. destruct H as [Hf He].
+    destruct (le_lt_dec n (length (c :: u0))) as [Hle | Hgt]; [exact Hle|]. exfalso.
+    assert (Hpos : (0 < n)%nat) by (cbn [length] in Hgt; lia).
+    pose proof (first_case 60 Hf Hpos) as Ec. specialize (H60 Ec).
+    destruct (longest_match_sound _ _ _ Hl) as (_ & Hm & _).
+    destruct (ends_sent_spec 62 r _ He Hm) as (mid & Emid & Hmid).
+    rewrite firstn_app in Emid. rewrite firstn_all2 in Emid by lia.
+    destruct (n - length (c :: u0))%nat as [|d] eqn:Ed; [lia|]. cbn [firstn] in Emid.
+    destruct (in_split_first 62 u0 H60) as (a1 & b1 & Eu & Ha1).
+    rewrite Eu in Emid. subst c.
+    assert (Ha : ~ In 62 (60 :: a1)) by (intros [I | I]; [discriminate I | exact (Ha1 I)]).
+    change (mid ++ [62]) with (mid ++ 62 :: []) in Emid.
+    replace ((60 :: a1 ++ 62 :: b1) ++ 127 :: firstn d w) with ((60 :: a1) ++ 62 :: (b1 ++ 127 :: firstn d w)) in Emid
+      by (cbn [app]; rewrite <- app_assoc; reflexivity).
+    destruct (split_unique 62 (60 :: a1) mid (b1 ++ 127 :: firstn d w) [] Ha Hmid Emid) as [_ Hnil].
+    destruct b1; discriminate Hnil.
+  - destruct (le_lt_dec n (length (c :: u0))) as [Hle | Hgt]; [exact Hle|]. exfalso.
+    assert (Hpos : (0 < n)%nat) by (cbn [length] in Hgt; lia).
+    exact (H127 (first_case 127 H Hpos)).
 Qed.
